@@ -405,30 +405,30 @@ def _toposort(dsk, keys=None, returncycle=False, dependencies=None):
                     if nxt in seen:
                         # Cycle detected!
                         # Let's report only the nodes that directly participate in the cycle.
-                        # We use `priorities` below to greedily construct a short cycle.
-                        # Shorter cycles may exist.
-                        priorities = {}
                         prev = nodes[-1]
-                        # Give priority to nodes that were seen earlier.
+                        # Everything above ``nxt`` on the stack may take part: the current
+                        # path and siblings that were pushed but not explored yet.
+                        inplay = {nxt}
                         while nodes[-1] != nxt:
-                            priorities[nodes.pop()] = -len(priorities)
-                        priorities[nxt] = -len(priorities)
-                        # We're going to get the cycle by walking backwards along dependents,
-                        # so calculate dependents only for the nodes in play.
-                        inplay = set(priorities)
-                        dependents = reverse_dict(
-                            {k: inplay.intersection(dependencies[k]) for k in inplay}
-                        )
-                        # Begin with the node that was seen twice and the node `prev` from
-                        # which we detected the cycle.
-                        cycle = [nodes.pop()]
-                        cycle.append(prev)
-                        while prev != cycle[0]:
-                            # Greedily take a step that takes us closest to completing the cycle.
-                            # This may not give us the shortest cycle, but we get *a* short cycle.
-                            deps = dependents[cycle[-1]]
-                            prev = min(deps, key=priorities.__getitem__)
-                            cycle.append(prev)
+                            inplay.add(nodes.pop())
+                        nodes.pop()
+                        # ``prev`` depends on ``nxt``; close the cycle with the shortest way
+                        # from ``nxt`` to ``prev`` along dependencies (breadth first, so this
+                        # always terminates; the current path guarantees that there is one).
+                        came_from = {nxt: None}
+                        queue = [nxt]
+                        for node in queue:
+                            if node == prev:
+                                break
+                            for dep in dependencies[node]:
+                                if dep in inplay and dep not in came_from:
+                                    came_from[dep] = node
+                                    queue.append(dep)
+                        cycle = [nxt]
+                        node = prev
+                        while node is not None:
+                            cycle.append(node)
+                            node = came_from[node]
                         cycle.reverse()
 
                         if returncycle:
